@@ -176,7 +176,7 @@ def sarg(a):
         return repr(a)
 
 
-HARVEST = {'quick': [('logic', 0, 60), ('function', 0, 40), ('list', 0, 20), ('hoare', 0, 20), ('set', 0, 30), ('set', 30, 60), ('set', 60, 100)] + [('nat', i, i + 20) for i in range(0, 120, 20)],
+HARVEST = {'quick': [('logic', 0, 30), ('logic', 30, 60), ('function', 0, 40), ('list', 0, 20), ('hoare', 0, 20)] + [('set', i, i + 10) for i in range(0, 100, 10)] + [('nat', i, i + 10) for i in range(0, 120, 10)],
            'thorough': [(t, i, i + 20) for t, n in (('logic', 60), ('nat', 240), ('function', 40), ('set', 120), ('list', 60), ('hoare', 20), ('int', 120), ('real', 200), ('logic_base', 40)) for i in range(0, n, 20)]}
 
 
@@ -187,6 +187,7 @@ def units(tier, seed):
     nn = len(numeral_goals())
     us += [('num', tier, seed, lo, lo + 120) for lo in range(0, nn, 120)]
     random.Random(seed).shuffle(us)
+    us.sort(key=lambda u: 0 if u[0] == 'harv' else 1)        # the harvesting units are the longest: start them first
     return us
 
 
